@@ -125,16 +125,22 @@ def _stmts(accs, depth, max_stmts, calls=True, pure=True, carried=True, unit_wei
                         out.append(["call", draw(st.sampled_from([False, False, True])), draw(st.integers(0, 1))])
                     elif mk == "carrier":
                         # an opaque call wrapped in 1..2 region ops that hold nothing else: a loop, the then- or the else-branch of an if
-                        c = ["call", False, draw(st.integers(0, 1))]
+                        # (sometimes beside a call annotated as effect free, before or behind it)
+                        inner = [["call", False, draw(st.integers(0, 1))]]
+                        beside = draw(st.sampled_from([None, None, "before", "behind"]))
+                        if beside == "before":
+                            inner.insert(0, ["call", True, draw(st.integers(0, 1))])
+                        elif beside == "behind":
+                            inner.append(["call", True, draw(st.integers(0, 1))])
                         for _ in range(draw(st.integers(1, 2)) if depth > 1 else (1 if depth > 0 else 0)):
                             w = draw(st.sampled_from(["for", "then", "else", "else"]))
                             if w == "for":
-                                c = ["for", draw(_loop_hdr()), [c], [], []]
+                                inner = [["for", draw(_loop_hdr()), inner, [], []]]
                             elif w == "then":
-                                c = ["if", ["p", draw(st.integers(0, 3))], [c], []]
+                                inner = [["if", ["p", draw(st.integers(0, 3))], inner, []]]
                             else:
-                                c = ["if", ["p", draw(st.integers(0, 3))], [], [c]]
-                        out.append(c)
+                                inner = [["if", ["p", draw(st.integers(0, 3))], [], inner]]
+                        out.extend(inner)
                     elif mk == "pure":
                         out.append(["pure", draw(st.sampled_from(PURE_OPS)), draw(_vref()), draw(_vref())])
                     else:
